@@ -170,6 +170,30 @@ class Run:
         self.log("negative control %s violates %s as required" % (cfg, expected))
         return r
 
+    def prove(self, module, timeout=240):
+        """Unbounded facts about pure operators, discharged by TLAPS (tlapm).  Supplementary: the result is
+        reported in the evidence and never decides a verdict (tlapm missing or timing out is only noted)."""
+        exe = shutil.which("tlapm")
+        rec = {"name": "tlaps:" + module, "generated": 0, "distinct": 0, "depth": 0}
+        if not exe:
+            rec["result"] = "tlapm not installed"
+        else:
+            d = tempfile.mkdtemp(prefix="tlaps-", dir=self.scratch)
+            shutil.copy(os.path.join(self.spec, module + ".tla"), d)
+            t = time.time()
+            try:
+                p = subprocess.run([exe, "--threads", str(NCPU), module + ".tla"], cwd=d, stdout=subprocess.PIPE,
+                                   stderr=subprocess.STDOUT, text=True, timeout=timeout)
+                m = re.search(r"All (\d+) obligations? proved", p.stdout)
+                rec["result"] = ("all %s obligations proved" % m.group(1)) if m else "NOT all proved: " + p.stdout[-400:]
+            except subprocess.TimeoutExpired:
+                rec["result"] = "timed out after %ds" % timeout
+            rec["wall_s"] = round(time.time() - t, 1)
+            shutil.rmtree(d, ignore_errors=True)
+        self.mc.append(rec)
+        self.log("TLAPS %s: %s" % (module, rec["result"]))
+        return rec
+
     # ---------------------------------------------------------------- trace validation
     def validate(self, module, cfg, ndjson, timeout=900, deque=False, heap="4g", fname="trace.ndjson"):
         """Run the trace spec over one NDJSON file (in a private copy of the spec directory, so
